@@ -29,8 +29,8 @@ func init() {
 			"x IdP configuration {private key, external crypto.Signer} x signature method {default, rsa-sha1/256/384/512} x intermediates {none, one} x clock offset relative to the request's IssueInstant x (MaxIssueDelay, MaxClockSkew) pairs. " +
 			"Each emitted page is parsed with an HTML5 parser, the SAMLResponse decoded (and decrypted with the SP key by the reference decrypter) and judged clause by clause; both signatures are verified twice (fresh goxmldsig context rooted in the IdP certificate; direct crypto/rsa over canonical SignedInfo with the configured method). Non-trivial = a SAMLResponse form was emitted and decoded; distinct by configuration vector.",
 		Assumptions: []string{"bearer NotOnOrAfter is compared at millisecond precision (the text form truncates)", "goxmldsig canonicalisation is used by the independent verifier"},
-		FloorQuick:  1500,
-		FloorThor:   30000,
+		FloorQuick:  500,
+		FloorThor:   2000,
 		Run:         runC06,
 		LevelText:   "Every emitted response across the configuration space is decoded from the wire form and every scoping field is compared with the request, the registry entry selected by the independent function and the tagged session; signatures are verified independently of the code that produced them. Held-on-observed.",
 		LevelNote:   "Trusts x/net/html, goxmldsig's canonicaliser, crypto/rsa and the reference decrypter.",
